@@ -70,8 +70,8 @@ PROPS = {
     },
     "C04": {
         "title": "Concurrent gets, sets and deletes are linearizable and never panic or hang",
-        "rules": [k2.p6_reader_pool, k2.p6b_pool_filled, k6.n2_mmap_extent, k7.l1_lock_order, k2.p18_handle_delegation, k2.p3_publish_after_append, k2m.p4_merge_per_entry_order, k1.w2_index_mutators, k5.p17_read_under_index_guard, k3.s2_live_vs_recovery, k9.s14_reader_cache_keying, k9.s21_forwarding, k9.n3_no_new_panic_sites, k9.s7b_merge_counts_in_output, k1.w1_file_mutation_api, controls.control("W1")],
-        "decides": "the pooled reader returns on every exit incl. unwind; index published only after flushed bytes (put and merge); index mutated only under the writer mutex or before sharing; the file read happens under the index shard guard; the pool is filled to capacity; no shard re-entrancy and an acyclic lock order; Handle operations return the writer's verdict obtained under the lock; each reader's file cache is keyed by the id asked for; Handle::get returns what its pooled reader returned; every explicit panic site (unwrap/expect/borrow/panic!) on the paths of get/put/delete/merge/sync is one of the reviewed ones; merge books live entries on the output they are in (an under-counted file makes a later overwrite underflow and panic); data and merge output files are created exclusively (create_new): an id collision after a failed merge fails loudly instead of appending to a foreign file",
+        "rules": [k2.p6_reader_pool, k2.p6b_pool_filled, k6.n2_mmap_extent, k7.l1_lock_order, k2.p18_handle_delegation, k2.p3_publish_after_append, k2m.p4_merge_per_entry_order, k1.w2_index_mutators, k5.p17_read_under_index_guard, k3.s2_live_vs_recovery, k9.s14_reader_cache_keying, k9.s21_forwarding, k9.n3_no_new_panic_sites, k9.s7b_merge_counts_in_output, k1.w1_file_mutation_api, controls.control("W1"), k10.n2b_remap_guard],
+        "decides": "the pooled reader returns on every exit incl. unwind; index published only after flushed bytes (put and merge); index mutated only under the writer mutex or before sharing; the file read happens under the index shard guard; the pool is filled to capacity; no shard re-entrancy and an acyclic lock order; Handle operations return the writer's verdict obtained under the lock; each reader's file cache is keyed by the id asked for; Handle::get returns what its pooled reader returned; every explicit panic site (unwrap/expect/borrow/panic!) on the paths of get/put/delete/merge/sync is one of the reviewed ones; merge books live entries on the output they are in (an under-counted file makes a later overwrite underflow and panic); data and merge output files are created exclusively (create_new): an id collision after a failed merge fails loudly instead of appending to a foreign file; the mapped reader maps the file again whenever the END of the requested record lies beyond its mapping (a record completed after the mapping was taken is found, not reported as beyond the end of the file)",
         "not_decided": "linearizability of histories and real-time order (statements about schedules of run-time events)",
     },
     "C05": {
@@ -101,7 +101,7 @@ PROPS = {
     "C09": {
         "title": "With sync=always an acknowledged write survives power loss, merges included",
         "rules": [k2.p2_sync_always, k2.p19_sync_chain, k2m.p5_merge_outputs_before_unlink, k5.ghint_hint_validation, k4.v1_log_iterator_eof, k8.s12_config_setters, k9.s12b_config_keys, k10.s12c_shipped_config_agrees, k10.s12d_env_separator],
-        "decides": "Always ⇒ every successful append is followed by a checked fsync of the same file before Ok and before any rollover; LogWriter::sync reaches File::sync_all; merge flushes+fsyncs data AND hint outputs (checked) before replacing them, before the first unlink and before Ok; hint entries are admitted only if within the data file; the sync chain is unconditional down to File::sync_all; a torn tail after power loss is skipped, not fatal; Config::sync stores the strategy; the settings key `sync` (every field's own name) is accepted by the derived deserializer of the configuration structs",
+        "decides": "Always ⇒ every successful append is followed by a checked fsync of the same file before Ok and before any rollover; LogWriter::sync reaches File::sync_all; merge flushes+fsyncs data AND hint outputs (checked) before replacing them, before the first unlink and before Ok; hint entries are admitted only if within the data file; the sync chain is unconditional down to File::sync_all; a torn tail after power loss is skipped, not fatal; Config::sync stores the strategy; the settings key `sync` (every field's own name) is accepted by the derived deserializer of the configuration structs; every key the shipped config.toml sets or documents resolves against the derived decoders, and the environment separator splits no key name (a setting given is a setting in force)",
         "not_decided": "the storage stack below fsync; the power-loss model itself",
     },
     "C10": {
@@ -112,8 +112,8 @@ PROPS = {
     },
     "C11": {
         "title": "Concurrent clients see one linearizable store",
-        "rules": [k2s.p11_command_application, k2.p18_handle_delegation, k1.w2_index_mutators, k5.p17_read_under_index_guard, k2.p3_publish_after_append, k3.s2_live_vs_recovery, k8.s9b_client_encoders, k9.s21_forwarding, k1.w1_file_mutation_api, controls.control("W1")],
-        "decides": "a reply is written only after the blocking storage call completed and its result was taken on the Ok edge; the store-level discipline the anchors name (single writer for index mutation, read under shard guard); results come from under the writer lock; put/delete perform exactly the live-path index effects with the location of the appended bytes; the KeyValueStorage impl of Handle forwards set/get/del to put/get/delete unchanged; exclusive file creation (a retried merge cannot append to a leftover output and re-point keys into it)",
+        "rules": [k2s.p11_command_application, k2.p18_handle_delegation, k1.w2_index_mutators, k5.p17_read_under_index_guard, k2.p3_publish_after_append, k3.s2_live_vs_recovery, k8.s9b_client_encoders, k9.s21_forwarding, k1.w1_file_mutation_api, controls.control("W1"), k10.n2b_remap_guard],
+        "decides": "a reply is written only after the blocking storage call completed and its result was taken on the Ok edge; the store-level discipline the anchors name (single writer for index mutation, read under shard guard); results come from under the writer lock; put/delete perform exactly the live-path index effects with the location of the appended bytes; the KeyValueStorage impl of Handle forwards set/get/del to put/get/delete unchanged; exclusive file creation (a retried merge cannot append to a leftover output and re-point keys into it); the mapped reader maps the file again whenever the END of the requested record lies beyond its mapping (a record completed after the mapping was taken is found, not reported as beyond the end of the file)",
         "not_decided": "linearizability itself",
     },
     "C12": {
@@ -138,7 +138,7 @@ PROPS = {
     "C15": {
         "title": "The connection limit holds and slots are never leaked",
         "rules": [k2s.p10_accept_loop, k1.w5_permit_ops, k4.v3_read_frame_eof, k8.p10b_accept_backoff, k9.p12b_read_error_ends_handler, k9.s12b_config_keys, k10.s12c_shipped_config_agrees, k10.s12d_env_separator],
-        "decides": "take-and-forget before accept once per iteration; handler built and moved into the task on every continuing path; the only release is +1 in Handler's Drop (runs on return, error, panic, cancellation); semaphore sized from max_connections; no Handler leak; the accept back-off never takes or leaks permits and gives up only after its maximum; a half-sent frame ends the handler; a handler whose read failed leaves (and frees its slot) instead of spinning",
+        "decides": "take-and-forget before accept once per iteration; handler built and moved into the task on every continuing path; the only release is +1 in Handler's Drop (runs on return, error, panic, cancellation); semaphore sized from max_connections; no Handler leak; the accept back-off never takes or leaks permits and gives up only after its maximum; a half-sent frame ends the handler; a handler whose read failed leaves (and frees its slot) instead of spinning; every key the shipped config.toml sets or documents resolves against the derived decoders, and the environment separator splits no key name (a setting given is a setting in force)",
         "not_decided": "the run-time count of live connections",
     },
     "C16": {
@@ -156,7 +156,7 @@ PROPS = {
     "C18": {
         "title": "Background merge and sync follow the configured policy",
         "rules": [k4.v4_never_policy, k2s.p15_interval_loops, k2.p19_sync_chain, k1.w6_merge_sync_entry, k3.s5_trigger_threshold_roles, k8.v4b_window_policy, k8.s12_config_setters, k9.s13_counter_arithmetic, k9.s12b_config_keys, k10.s12c_shipped_config_agrees, k10.s12d_env_separator],
-        "decides": "Never ⇒ no path to merge; merge only behind can_merge()==true; triggers decide whether, thresholds decide which, like compared with like in the selecting direction; each tick of the sync loop reaches the fsync; periodic sync exactly under IntervalMs with its period; the Window policy compares the hour with start (<) and end (>); Config setters and the file-then-environment source order take effect; the jitter sampler accepts a zero-width range; fragmentation() is dead/(dead+live) and 0 without dead keys (what the triggers compare); every configuration field can be set under its own name from a file or the environment",
+        "decides": "Never ⇒ no path to merge; merge only behind can_merge()==true; triggers decide whether, thresholds decide which, like compared with like in the selecting direction; each tick of the sync loop reaches the fsync; periodic sync exactly under IntervalMs with its period; the Window policy compares the hour with start (<) and end (>); Config setters and the file-then-environment source order take effect; the jitter sampler accepts a zero-width range; fragmentation() is dead/(dead+live) and 0 without dead keys (what the triggers compare); every configuration field can be set under its own name from a file or the environment; every key the shipped config.toml sets or documents resolves against the derived decoders, and the environment separator splits no key name (a setting given is a setting in force)",
         "not_decided": "timing ('within one interval plus jitter')",
     },
     "C19": {
